@@ -8,7 +8,9 @@
 // each on a context of its own. Re-entrant cases (runReentrant) put a third-party
 // wrapper into the chain; sequence cases (seq.go) make further calls on a context
 // that stems from an earlier call (the stream's Context(), a context an
-// interceptor was handed, the caller's own, or one derived from those).
+// interceptor was handed, the caller's own, or one derived from those). Method-name cases
+// (names.go) repeat the single-call cases with every spelling of the method name and with
+// interceptors that hand on another name.
 package main
 
 import (
@@ -49,7 +51,7 @@ const (
 	bAddOpt
 )
 
-var behNames = []string{"nil", "pass", "short", "addopt"}
+var behNames = []string{"nil", "pass", "short", "addopt", "rename"} // rename: names.go
 
 type layerCfg struct {
 	U int `json:"u"`
@@ -64,6 +66,8 @@ type caseT struct {
 	// base only); 2 = cancelled by the innermost interceptor that is reached, just before it returns
 	// (recording base: both kinds; real bases: the unary call, which is complete by then).
 	Ctx int `json:"ctx,omitempty"`
+	// Spell: the spelling of the method name the caller uses (index into spellings, names.go); 0 = "/t.C/U", "/t.C/S"
+	Spell int `json:"spell,omitempty"`
 	// Re, when set, makes this a RE-ENTRANT case (see runReentrant); Layers is unused.
 	Re *reCase `json:"reentrant,omitempty"`
 	// Seq, when set, makes this a SEQUENCE case (see seq.go): three calls, the second and third on a context
@@ -103,7 +107,7 @@ func (c caseT) String() string {
 	if c.Ctx != 0 {
 		s += " ctx=" + []string{"live", "cancelled-before-the-call", "cancelled-by-innermost-interceptor-before-it-returns"}[c.Ctx]
 	}
-	return s
+	return s + c.nameSuffix()
 }
 
 // ---------------------------------------------------------------- event log
@@ -228,6 +232,10 @@ func mkUnary(l *clog, ls *layerState, b int) grpc.UnaryClientInterceptor {
 			e.called = true
 			e.gotErr = invoker(ctx, method, req, reply, cc, append(cp(opts), ls.optU)...)
 			e.retErr = e.gotErr
+		case bRename:
+			e.called = true
+			e.gotErr = invoker(ctx, method+renameSuffix(ls.idx), req, reply, cc, opts...)
+			e.retErr = e.gotErr
 		}
 		l.returning(ls.idx)
 		return e.retErr
@@ -250,6 +258,10 @@ func mkStream(l *clog, ls *layerState, b int) grpc.StreamClientInterceptor {
 		case bAddOpt:
 			e.called = true
 			e.gotStream, e.gotErr = streamer(ctx, desc, cc, method, append(cp(opts), ls.optS)...)
+			e.retStream, e.retErr = e.gotStream, e.gotErr
+		case bRename:
+			e.called = true
+			e.gotStream, e.gotErr = streamer(ctx, desc, cc, method+renameSuffix(ls.idx), opts...)
 			e.retStream, e.retErr = e.gotStream, e.gotErr
 		}
 		l.returning(ls.idx)
@@ -328,7 +340,8 @@ func serviceDesc() *grpc.ServiceDesc {
 				return nil, err
 			}
 			c := cur.Load().(*curT)
-			c.l.add(&entry{layer: 0, kind: "unary", reqValue: in.Value})
+			sm, _ := grpc.Method(ctx)
+			c.l.add(&entry{layer: 0, kind: "unary", reqValue: in.Value, method: sm})
 			grpc.SetHeader(ctx, hdr)
 			if c.baseErr {
 				return nil, errBase
@@ -337,7 +350,8 @@ func serviceDesc() *grpc.ServiceDesc {
 		}}},
 		Streams: []grpc.StreamDesc{{StreamName: "S", ClientStreams: true, ServerStreams: true, Handler: func(srv interface{}, stream grpc.ServerStream) error {
 			c := cur.Load().(*curT)
-			e := c.l.add(&entry{layer: 0, kind: "stream"})
+			sm, _ := grpc.MethodFromServerStream(stream)
+			e := c.l.add(&entry{layer: 0, kind: "stream", method: sm})
 			select {
 			case c.started <- struct{}{}:
 			default:
@@ -396,6 +410,7 @@ type problem struct {
 
 var progress int64
 var current atomic.Value
+var nameChecks int // comparisons of the name a participant was given with the name it was to be given
 
 func optsEqual(a, b []grpc.CallOption) bool {
 	if len(a) != len(b) {
@@ -610,6 +625,9 @@ func (r *rig) call(n int, kind string, ctx context.Context, cancel context.Cance
 	wantOpts := map[int][]grpc.CallOption{}
 	var wantLog []int
 	optsNow := cp(callerOpts)
+	method := spellName(c.Spell, kind) // the caller's spelling of the method name
+	wantName := map[int]string{}       // the name every participant is to be given
+	nameNow := method
 	reached := true
 	var shortAt int
 	var hdrWanted []*metadata.MD
@@ -624,10 +642,14 @@ func (r *rig) call(n int, kind string, ctx context.Context, cancel context.Cance
 		}
 		wantLog = append(wantLog, i)
 		wantOpts[i] = cp(optsNow)
+		wantName[i] = nameNow
 		if b == bShort {
 			reached = false
 			shortAt = i
 			break
+		}
+		if b == bRename {
+			nameNow += renameSuffix(i)
 		}
 		if b == bAddOpt {
 			if kind == "unary" {
@@ -639,10 +661,20 @@ func (r *rig) call(n int, kind string, ctx context.Context, cancel context.Cance
 			}
 		}
 	}
-	if reached {
-		wantLog = append(wantLog, 0)
-		wantOpts[0] = cp(optsNow)
+	// a real base is compared with itself: the same call made on it directly, with nothing wrapped around it
+	var ref outcome
+	realBase := c.Base != "rec"
+	if realBase && reached {
+		ref = refOutcome(c.Base, kind, nameNow, c.BaseErr)
 	}
+	if reached {
+		if !realBase || ref.HandlerRan > 0 {
+			wantLog = append(wantLog, 0) // a real base is seen through its server handler
+		}
+		wantOpts[0] = cp(optsNow)
+		wantName[0] = nameNow
+	}
+	differential := realBase && (c.Spell != 0 || nameNow != method)
 	for i := 1; i <= depth; i++ {
 		if kind == "unary" {
 			states[i].hdrU = nil
@@ -678,7 +710,6 @@ func (r *rig) call(n int, kind string, ctx context.Context, cancel context.Cance
 	req := wrapperspb.String("req")
 	resp := new(wrapperspb.StringValue)
 	desc := &grpc.StreamDesc{StreamName: "S", ClientStreams: true, ServerStreams: true}
-	method := unaryMethod
 	var err error
 	var cs grpc.ClientStream
 	var msgs []string
@@ -687,7 +718,6 @@ func (r *rig) call(n int, kind string, ctx context.Context, cancel context.Cance
 	if kind == "unary" {
 		err = r.ch.Invoke(ctx, method, req, resp, callerOpts...)
 	} else {
-		method = streamMethod
 		cs, err = r.ch.NewStream(ctx, desc, method, callerOpts...)
 		if _, fake := cs.(*fakeCS); cs != nil && !fake && err == nil {
 			// a real stream: send the request; its handler logs its entry when it starts
@@ -695,7 +725,9 @@ func (r *rig) call(n int, kind string, ctx context.Context, cancel context.Cance
 			if e := cs.SendMsg(req); e != nil && e != io.EOF {
 				streamEnd = fmt.Errorf("SendMsg: %w", e)
 			}
-			r.cu.awaitHandler()
+			if !differential || ref.HandlerRan > 0 {
+				r.cu.awaitHandler()
+			}
 		}
 	}
 	l.beforeReturn = nil
@@ -728,6 +760,22 @@ func (r *rig) call(n int, kind string, ctx context.Context, cancel context.Cance
 		} else {
 			o += fmt.Sprintf(" stream=%T msgs=%v end=%v", cs, msgs, streamEnd)
 		}
+		if c.Spell != 0 || c.renames() {
+			var ns []string
+			for _, e := range es {
+				if e.layer > 0 {
+					ns = append(ns, fmt.Sprintf("L%d:%q", e.layer, e.method))
+				} else if realBase {
+					ns = append(ns, fmt.Sprintf("server:%q", e.method))
+				} else {
+					ns = append(ns, fmt.Sprintf("base:%q", e.method))
+				}
+			}
+			o += fmt.Sprintf(" caller's name=%q given to %s", method, strings.Join(ns, ","))
+			if realBase && reached {
+				o += fmt.Sprintf(" (the base called directly: %+v)", ref)
+			}
+		}
 		var ccs []string
 		for _, e := range es {
 			if e.layer > 0 {
@@ -741,6 +789,17 @@ func (r *rig) call(n int, kind string, ctx context.Context, cancel context.Cance
 		}
 
 		if cl := classifyLog(got, wantLog); cl != "" {
+			if differential && reached && (cl == "base-reached-although-short-circuited" || cl == "base-not-reached") {
+				// whether the server handler is due to run for this name is taken from the direct call
+				n := 0
+				for _, g := range got {
+					if g == 0 {
+						n++
+					}
+				}
+				add("differs-from-direct-call", kind, fmt.Sprintf("%s call to %q through the wrappers: the server handler behind the base ran %d time(s) (event log %v); the same call on the base channel directly: %+v", kind, method, n, got, ref))
+				return
+			}
 			add(cl, kind, fmt.Sprintf("%s call: event log (layers, outermost=%d, base=0) %v, expected %v", kind, depth, got, wantLog))
 			return
 		}
@@ -749,15 +808,23 @@ func (r *rig) call(n int, kind string, ctx context.Context, cancel context.Cance
 			if e.layer == 0 {
 				who = "base"
 			}
-			real := e.layer == 0 && c.Base != "rec"
+			real := e.layer == 0 && realBase
 			if real {
-				if e.reqValue != "req" {
+				if !differential && e.reqValue != "req" {
 					add("message", kind+"|"+who, fmt.Sprintf("%s call: the server behind the base read request %q, sent %q", kind, e.reqValue, "req"))
+				}
+				if e.method != ref.ServerMethod {
+					add("method", kind+"|server", fmt.Sprintf("%s call to %q: the server behind the base saw method %q; when the base is called directly with that name, it sees %q", kind, method, e.method, ref.ServerMethod))
 				}
 				continue
 			}
-			if e.method != method {
-				add("method", kind+"|"+who, fmt.Sprintf("%s call: %s was given method %q, caller used %q", kind, who, e.method, method))
+			nameChecks++
+			if e.method != wantName[e.layer] {
+				if wantName[e.layer] == method {
+					add("method", kind+"|"+who, fmt.Sprintf("%s call: %s was given method %q, caller used %q", kind, who, e.method, method))
+				} else {
+					add("method", kind+"|"+who, fmt.Sprintf("%s call: %s was given method %q, the interceptor before it handed on %q (caller used %q)", kind, who, e.method, wantName[e.layer], method))
+				}
 			}
 			if kind == "unary" && (e.req != interface{}(req) || e.resp != interface{}(resp)) {
 				add("message", kind+"|"+who, fmt.Sprintf("%s call: %s was given different request/response objects than the caller's", kind, who))
@@ -781,6 +848,13 @@ func (r *rig) call(n int, kind string, ctx context.Context, cancel context.Cance
 				}
 			}
 		}
+		// the caller's own objects are as they were
+		if req.Value != "req" {
+			add("message", kind, fmt.Sprintf("%s call: the caller's request message reads %q after the call, was %q", kind, req.Value, "req"))
+		}
+		if desc.StreamName != "S" || !desc.ClientStreams || !desc.ServerStreams || desc.Handler != nil {
+			add("stream-desc", kind, fmt.Sprintf("%s call: the caller's StreamDesc was modified: %+v", kind, *desc))
+		}
 		// what the caller sees
 		if len(es) > 0 && (es[0].layer > 0 || c.Base == "rec") {
 			top := es[0]
@@ -791,7 +865,10 @@ func (r *rig) call(n int, kind string, ctx context.Context, cancel context.Cance
 				add("caller-result", kind, fmt.Sprintf("%s call: caller got a stream (%T) that is not the one the outermost participant returned (%T)", kind, cs, top.retStream))
 			}
 		}
-		last := es[len(es)-1] // the log is the expected one, which is never empty
+		var last *entry // the log is the expected one; it is empty only on a real base whose handler does not run
+		if len(es) > 0 {
+			last = es[len(es)-1]
+		}
 		if !reached {
 			// last is the entry of the short-circuiting layer
 			if kind == "unary" && err != states[shortAt].shortErr {
@@ -812,6 +889,42 @@ func (r *rig) call(n int, kind string, ctx context.Context, cancel context.Cance
 				add("caller-result", kind, fmt.Sprintf("unary call: caller got err=%v resp=%q", err, resp.Value))
 			} else if kind == "stream" && (err != nil || cs == nil || cs != last.retStream) {
 				add("caller-result", kind, fmt.Sprintf("stream creation: caller got (%T, %v), base returned its stream object", cs, err))
+			}
+			return
+		}
+		if differential {
+			// an unusual method name on a real base: whatever the base makes of it, it is to be what the base
+			// makes of it when called directly
+			got := outcome{Resp: resp.Value, Msgs: msgs, ServerMethod: ref.ServerMethod, ReqRead: ref.ReqRead, HdrFromServer: ref.HdrFromServer}
+			if kind == "stream" && (err != nil || cs == nil) {
+				got.CreateErr = errSummary(err)
+				if err == nil {
+					got.CreateErr = "nil stream and nil error"
+				}
+				got.Final = got.CreateErr
+			} else if kind == "stream" {
+				got.Final = errSummary(streamEnd)
+			} else {
+				got.Final = errSummary(err)
+			}
+			for _, e := range es {
+				if e.layer == 0 {
+					got.HandlerRan++
+					got.ReqRead = e.reqValue
+				}
+			}
+			if !reflect.DeepEqual(got, ref) {
+				add("differs-from-direct-call", kind, fmt.Sprintf("%s call to %q through the wrappers: %+v; the same call on the base channel directly: %+v", kind, method, got, ref))
+				return
+			}
+			for k, h := range hdrWanted {
+				if n := len((*h).Get("x-from-server")); n != ref.HdrFromServer {
+					whose := "the caller's"
+					if k > 0 {
+						whose = "one appended by an interceptor"
+					}
+					add("option-not-honoured", kind, fmt.Sprintf("%s call to %q: a grpc.Header option (%s) received %d value(s) of the server's header, %d when the base is called directly: %v", kind, method, whose, n, ref.HdrFromServer, *h))
+				}
 			}
 			return
 		}
@@ -1120,6 +1233,32 @@ func fingerprint(c caseT, pr problem) string {
 	if c.Ctx != 0 {
 		pr.sub += fmt.Sprintf("|ctx=%d", c.Ctx)
 	}
+	if c.Spell != 0 || c.renames() {
+		label := spellings[c.Spell].label
+		if c.renames() {
+			label += "+renamed-by-an-interceptor"
+		}
+		if pr.clause == "method" {
+			// who was given a wrong name for which spelling; which layers surround it is in the replay object
+			kind, who := pr.sub, ""
+			if i := strings.IndexByte(kind, '|'); i >= 0 {
+				kind, who = kind[:i], kind[i+1:]
+			}
+			if strings.HasPrefix(who, "L") {
+				first, _ := expectedLayers(c.Layers, kind)
+				if len(first) > 0 && who == fmt.Sprintf("L%d", first[0]) {
+					who = "first-interceptor"
+				} else {
+					who = "later-interceptor"
+				}
+			}
+			return fmt.Sprintf("C17|%s|method-name|%s|%s|name=%s", c.Base, kind, who, label)
+		}
+		if pr.clause == "differs-from-direct-call" {
+			return fmt.Sprintf("C17|%s|differs-from-direct-call|%s|name=%s", c.Base, pr.sub, label)
+		}
+		pr.sub += "|name=" + label
+	}
 	if c.Seq != nil {
 		// which call of the sequence went wrong, on a context from where; the kinds of the other calls of the
 		// sequence are in the replay object
@@ -1200,6 +1339,8 @@ func main() {
 	suppressedFPs := map[string]bool{}
 	const maxReported = 100
 	reCases, seqCases, calls := 0, 0, 0
+	nameCases, nameDistinct := map[string]int{}, 0
+	var nameSamples []interface{}
 	seqDistinct := map[uint64]bool{}
 	seqBySrc := map[string]int{}
 	var seqSamples []interface{}
@@ -1237,6 +1378,19 @@ func main() {
 		if (nonTrivial && c.Seq == nil) || c.Re != nil {
 			distinct[c.String()] = true
 		}
+		if c.Spell != 0 || c.renames() {
+			k := spellings[c.Spell].label
+			if c.renames() {
+				k += ", an interceptor hands on another name"
+			}
+			nameCases[k]++
+			if nonTrivial {
+				nameDistinct++
+			}
+			if isNameSample(c) {
+				nameSamples = append(nameSamples, map[string]interface{}{"case": c, "observed": obs})
+			}
+		}
 		if c.Seq == nil && len(samples) < 8 && len(c.Layers) >= 2 && evals%2089 == 0 {
 			samples = append(samples, map[string]interface{}{"case": c, "observed": obs})
 		}
@@ -1262,6 +1416,12 @@ func main() {
 	if tier == "thorough" {
 		seqFullDepth, seqSweep, seqRule = 3, nil, "complete (16 per layer) at depths 0..3"
 	}
+	nameRule := "the four shapes {none, unary-only, stream-only, both: pass} per layer at depths 0..3"
+	if tier == "thorough" {
+		nameRule = "complete (16 per layer) at depths 0..2, at depth 3 each layer one of {nil/nil, pass/nil, nil/pass, pass/pass, addopt/addopt, short/short}"
+	}
+	enumerateNames(tier == "thorough", visit)
+	samples = append(samples, nameSamples...)
 	enumerateSeq(seqFullDepth, seqSweep, visit)
 	samples = append(samples, seqSamples...)
 	if n := len(suppressedFPs); n > 0 {
@@ -1278,15 +1438,21 @@ func main() {
 		"sequence_first_call_left_no_context_source":      seqStats.noSource,
 		"sequence_context_source_already_done":            seqStats.deadSource,
 		"distinct_nontrivial_single_and_reentrant":        len(distinct),
+		"method_name_cases_by_spelling":                   nameCases,
+		"method_name_cases_nontrivial":                    nameDistinct,
+		"method_name_comparisons_at_participants":         nameChecks,
+		"method_name_spellings":                           spellingTable(),
+		"real_base_called_directly_reference":             refTable(),
 		"distinct_nontrivial_sequences":                   len(seqDistinct),
 		"distinct_nontrivial":                             len(distinct) + len(seqDistinct),
-		"rule":                                            "every configuration of: wrapping depth 0..3 x per layer (unary {nil,pass,short-circuit,append-an-option} x stream {same}) x base {recording stub, real *grpc.ClientConn over bufconn, inprocgrpc.Channel, httpgrpc.Channel over an in-memory RoundTripper} x base outcome {ok,error}; each makes one unary call and one stream creation (real streams are driven to completion). The caller's context is live, already cancelled (recording base only), or cancelled by the innermost interceptor reached just before it returns (recording base: both kinds; real bases: unary); the base's error is a NotFound status with one detail and must arrive unchanged (identity on the recording base, code+message+details on the real ones). RE-ENTRANT cases: a third-party WrappedClientConn sits between 0-1 pass/pass layers over the base and 1-2 layers above; its first Unwrap() issues a second RPC through the outermost channel on the same goroutine; every interceptor of both RPCs must be given the right cc and see its RPC exactly once. A configuration is non-trivial when at least one layer has an interceptor, i.e. a wrapper object of intercept.go is on the path; distinct by all parameters. SEQUENCE cases (where the context of a call comes from): a first call (unary | stream) on a new context through the outermost wrapper, then a second and a third call (each unary | stream, all four pairs) on ONE context that is {fresh: new and unrelated | same: the caller's context of the first call | stream: Context() of the stream the first call returned, which is still open (request sent, server handler started, nothing read) and is completed after the follow-up calls | icpt@Lj: the context the interceptor of layer j was handed during the first call, for every layer j whose interceptor the first call reaches} x {as it is | context.WithValue of it | context.WithCancel of it}; crossed with base x base outcome x layer configurations " + seqRule + "; every one of the three calls is checked with the full single-call oracle (event log = every applicable layer exactly once, outermost first, then the base; cc; method, messages, options; results). A sequence case is non-trivial when the context is not the fresh one and at least one follow-up call is due to pass an interceptor; distinct by all parameters. Not crossed with the sequences: the cancelled-context modes and the re-entrant third-party wrapper.",
+		"rule":                                            "every configuration of: wrapping depth 0..3 x per layer (unary {nil,pass,short-circuit,append-an-option} x stream {same}) x base {recording stub, real *grpc.ClientConn over bufconn, inprocgrpc.Channel, httpgrpc.Channel over an in-memory RoundTripper} x base outcome {ok,error}; each makes one unary call and one stream creation (real streams are driven to completion). The caller's context is live, already cancelled (recording base only), or cancelled by the innermost interceptor reached just before it returns (recording base: both kinds; real bases: unary); the base's error is a NotFound status with one detail and must arrive unchanged (identity on the recording base, code+message+details on the real ones). RE-ENTRANT cases: a third-party WrappedClientConn sits between 0-1 pass/pass layers over the base and 1-2 layers above; its first Unwrap() issues a second RPC through the outermost channel on the same goroutine; every interceptor of both RPCs must be given the right cc and see its RPC exactly once. A configuration is non-trivial when at least one layer has an interceptor, i.e. a wrapper object of intercept.go is on the path; distinct by all parameters. SEQUENCE cases (where the context of a call comes from): a first call (unary | stream) on a new context through the outermost wrapper, then a second and a third call (each unary | stream, all four pairs) on ONE context that is {fresh: new and unrelated | same: the caller's context of the first call | stream: Context() of the stream the first call returned, which is still open (request sent, server handler started, nothing read) and is completed after the follow-up calls | icpt@Lj: the context the interceptor of layer j was handed during the first call, for every layer j whose interceptor the first call reaches} x {as it is | context.WithValue of it | context.WithCancel of it}; crossed with base x base outcome x layer configurations " + seqRule + "; every one of the three calls is checked with the full single-call oracle (event log = every applicable layer exactly once, outermost first, then the base; cc; method, messages, options; results). A sequence case is non-trivial when the context is not the fresh one and at least one follow-up call is due to pass an interceptor; distinct by all parameters. Not crossed with the sequences: the cancelled-context modes and the re-entrant third-party wrapper. METHOD NAME (how the caller spells it; all cases above use the spelling of generated stubs, \"/t.C/U\" and \"/t.C/S\"): each of the 10 other spellings of method_name_spellings (no leading slash, empty, \"/\", method only, trailing slash, doubled leading slash, leading space, inner and trailing space, percent-encoded so that unescaping gives the canonical name, bare percent sign) x {unary call, stream creation} x base outcome x [recording base: the complete single-call layer grammar, depth 0..3, 16 per layer | each real base: " + nameRule + "], live context. Every interceptor reached and the recording base must be given exactly the caller's string (and the same request/response objects, StreamDesc pointer and options as ever); a real base is compared with a reference, the same call made on the base channel directly with no wrapper (made twice, must agree; table real_base_called_directly_reference): server handler entered equally often, same method seen by the server, same request read, same status code + message + number of details, same response/messages, same number of header values delivered to every grpc.Header option. Plus, recording base: every spelling (canonical too) x depth 1..3 x per layer (unary {nil, pass, rename} x stream {same}) with at least one renaming interceptor, which hands on the name it was given + \"#L<i>\": every participant further in must be given exactly what the interceptor before it handed on. Spelling cases are counted as non-trivial by the same rule (a wrapper object on the path). Not crossed with the spellings: cancelled contexts, re-entrant and sequence cases. After every call the caller's request message and StreamDesc must read as before.",
 		"samples":                                         samples,
 		"exhaustive":                                      true,
 		"suppressed_reports":                              len(suppressedFPs),
 	}, []string{
 		"the real gRPC connection runs over google.golang.org/grpc/test/bufconn (in-memory), the HTTP channel over common.HandlerRT; no sockets",
 		"sequence cases: follow-up calls are made while the first call's stream is open and every context live (calls on a dead context are the ctx=1 single-call cases, recording base); the streams of the recording base and of short-circuiting interceptors are stubs whose Context() is the context their creator was given; contexts are reused only on the wrapped channel they came from, not across differently wrapped channels",
+		"unusual method names on the real bases: nothing is assumed about whether a base serves or rejects such a name, only that it does the same as when it is called directly; the reference is made once per (base, kind, name, base outcome) on a background context and cached",
 		"identity of messages/options at the base is observed on the recording stub; on the three real bases the base is observed through the server handler (ran once, read the request) and through grpc.Header options being filled",
 	}))
 }
